@@ -8,6 +8,8 @@ import EaselModel.Stats.GumbelConcave
 import EaselModel.Stats.MinLemmas
 import EaselModel.Stats.MinReal
 import EaselModel.Stats.MinCounter
+import EaselModel.Stats.MinTrace
+import EaselModel.Stats.MinDescent
 /-! # C11 — property theorems (statements + glue only; lemmas live in `EaselModel/Stats/*`)
 
 Histogram half. `Hist` is the line-by-line model of `esl_histogram.c` (`EaselModel/Stats/Histogram.lean`), run bit-for-bit
@@ -419,6 +421,38 @@ example : InfOK ℝ := infOK_r
     point of `[ax, cx]` instead of `bx`. Reproduced bit-for-bit by the C code (corpus `cgd-not-a-descent-method`). -/
 theorem cg_is_not_a_descent_method : cgWorse (cgd (MinCfg.null : MinCfg ℚ) needle1 none #[0]).1 (needle1 #[0]) = true :=
   cgd_needle_worse_than_start
+
+/-! ### round 4: the run statistics (`ESL_MIN_DAT`), the iteration bound, and where descent can fail -/
+
+/-- the driver prints — and the check compares with the C code's `ESL_MIN_DAT` table (`niter`, `fx[]`, `brack_n[]`, `brent_n[]`, `nfunc[]`) —
+    the statistics of `cgdT`; dropping the statistics gives exactly `cgd`, the function all theorems here are about. Every numeric class. -/
+theorem cg_statistics_are_of_the_proved_run {α : Type} [Num α] (cfg : MinCfg α) (f : Array α → α) (df : Option (Array α → Array α)) (x0 : Array α) :
+    (cgdT cfg f df x0).1 = cgd cfg f df x0 :=
+  cgdT_fst cfg f df x0
+
+/-- **termination within `max_iterations`**, every objective / gradient / configuration / start / numeric class: the table has at most
+    `max_iterations` completed rows and every `bracket()` call used at most `brack_maxiter` extension rounds (`brent()`: see
+    `cg_hangs_only_in_brent`); with `cg_return_means_stopping_rule`: the status is eslENOHALT exactly when the rows ran out. -/
+theorem cg_terminates_within_max_iterations {α : Type} [Num α] (cfg : MinCfg α) (f : Array α → α) (df : Option (Array α → Array α)) (x0 : Array α) :
+    (cgdT cfg f df x0).2.rows.length ≤ cfg.maxIter ∧ ∀ r ∈ (cgdT cfg f df x0).2.rows, r.brackN ≤ cfg.brackMaxIter :=
+  cgdT_bounds cfg f df x0
+
+/-- **Monotone descent, as far as it is true.** Full statement wanted: `*opt_fx ≤ f(x₀)` for every run. That is false
+    (`cg_is_not_a_descent_method`). Proved (ℝ, every objective, gradient, configuration, start): on eslOK / eslENOHALT either
+    `*opt_fx ≤ f(x₀)`, or the run contains a line search in which `brent()` returned a value strictly above the `f(bx)` that `bracket()`
+    had just found on the same line (`bx` is never worse than the line's origin: `bracket_postcondition`). So the one and only way to
+    lose ground is `brent()` restarting from the golden-section point of `[ax, cx]` instead of from `bx`. The C side's `fx[]` trace is
+    compared with the model's on every run and the number of non-monotone traces is reported in the evidence. -/
+theorem cg_descends_unless_brent_loses_the_bracket_point (cfg : MinCfg ℝ) (f : Array ℝ → ℝ) (df : Option (Array ℝ → Array ℝ)) (x0 : Array ℝ)
+    (st : St) (x : Array ℝ) (fx : ℝ) (h : (cgd cfg f df x0).1 = .res st x fx) (hst : st = .ok ∨ st = .enohalt) :
+    fx ≤ f x0 ∨ BrentLostBracketPoint cfg :=
+  cgd_descent cfg f df x0 st x fx h hst
+
+/-- non-vacuity: `max_iterations = 0` on `f(x) = x₀·x₀` (numeric gradient non-zero at 1) returns eslENOHALT with `fx = f(x₀)` -/
+example : (cgd ({ (MinCfg.null : MinCfg ℝ) with maxIter := 0 }) (fun x => x.getD 0 0 * x.getD 0 0) (some (fun x => #[2 * x.getD 0 0])) #[1]).1
+    = .res .enohalt #[1] 1 := by
+  have h : ¬ ((1.0 : ℝ) = 0) := by norm_num
+  simp [cgd, cgLoop, negGradient, allZero, Num.isFinite, h]
 
 /-- over ℝ, `esl_vec_DMin` is the smallest observation (non-empty data) -/
 theorem cg_fit_location_is_minimum (xs : Array ℝ) (hn : 0 < xs.size) : vmin xs ∈ xs.toList ∧ ∀ x ∈ xs.toList, vmin xs ≤ x := by
